@@ -2,6 +2,7 @@ package harness
 
 import (
 	"context"
+	"errors"
 	"time"
 
 	"github.com/klev-dev/klevdb"
@@ -139,7 +140,7 @@ func (r *Run) execHelper(ctx context.Context, op *Op) {
 	}
 	r.applyDeleted(op.K, []int64{hc.Bound}, fromKs(got), gotOffs, size, err)
 	r.probe(op.K)
-	if err != nil && !r.stopped() {
+	if err != nil && !r.stopped() && !errors.Is(err, errBackoffStop) {
 		r.unexpected(op.K, err)
 	}
 }
